@@ -5,8 +5,11 @@ Stage 2 (correspondence, real CLI under strace, evaluated inside Coq by Corr/Che
   coverage half  - every mutating command (new, cp external/internal, mv external/internal, rm,
                    reset <path>, commit, upgrade), successful, failing and fault-injected (EIO, SIGINT,
                    SIGKILL at sampled system calls): the traced calls, abstracted to the events of the
-                   model (KAcq/KMut/KRel/KFail), are accepted by the bracket automaton that
-                   C13_traces_well_bracketed proves for every trace of the model; the locks directory
+                   model (KAcq/KMut/KRel/KFail), are accepted by the STRICT automaton (lock-table automaton
+                   AND one bracket per command: Acq ; Mut* ; Rel and then nothing - exactly one creation and
+                   one removal of the lock file, no mutating call below the object's roots before the
+                   creation or after the removal, no second acquire) that C13_traces_strictly_bracketed /
+                   C13_one_bracket_per_operation prove for every trace of the model; the locks directory
                    is empty after every run that returned.
   exclusion half - two real processes: A is held (strace delay injection) at a sampled system call,
                    B runs to completion meanwhile.  Same object and A inside its body: B is refused with
@@ -15,12 +18,19 @@ Stage 2 (correspondence, real CLI under strace, evaluated inside Coq by Corr/Che
                    operations that acquired the lock, in acquire order (reference run in a second
                    scratch repository, inventories compared without their `created` stamps).  The
                    model instance of Corr/CheckLock.v is run under the same schedule and must predict
-                   the observed results.  Plus N-way races of whole commands on one object.
+                   the observed results.  Hold points of A: before its acquire, sampled calls inside, the
+                   removal of the lock file held on ENTRY (lock still there) and on EXIT (lock gone, A has
+                   not moved on), and every mutating call that follows a lock removal, if the tree under
+                   test has one (entry and exit); B in {commit, cp, reset <path>, upgrade}: B must be
+                   refused whenever A has begun and is not finished (holds the lock or still makes
+                   mutating calls on the object afterwards).  Plus N-way races of whole commands on one object.
   library level  - B through the library harness (error kind LockAcquire) while a CLI process holds the
                    lock; the panic exit path (a debug-build overflow panic inside the body).
 Stage 3 (direct search): the model-free oracle on the same runs (index of the lock create < every
-  object-touching call < index of the lock unlink; locks directory empty; refused B made no mutating
-  call; final state in the set of serial results).
+  object-touching call < index of the lock unlink; the command's calls on its lock file and object spell
+  create, mutations, unlink and nothing else - one bracket; locks directory empty; refused B made no
+  mutating call; B refused while A is in the middle of its operation; final state in the set of serial
+  results).
 """
 import concurrent.futures
 import hashlib
@@ -40,6 +50,7 @@ ID_B = "urn:x/ü 1"          # non-ASCII id with a slash and a space: the lock n
 ID_UP = "obj-up"               # OCFL 1.0 object in a 1.1 repository (for upgrade)
 ID_ST = "obj-staged"           # staged, never committed
 ID_NEW = "obj-new"             # does not exist in the template
+ID_S10 = "obj-staged-10"       # OCFL 1.0 object, staged, never committed (upgrade of a never-committed object)
 
 
 def _prefix_pair():
@@ -56,7 +67,7 @@ def _prefix_pair():
 
 
 ID_P1, ID_P2 = _prefix_pair()    # P1: staged, never committed; P2: does not exist
-IDS = [ID_A, ID_B, ID_UP, ID_ST, ID_NEW, ID_P1, ID_P2]
+IDS = [ID_A, ID_B, ID_UP, ID_ST, ID_NEW, ID_P1, ID_P2, ID_S10]
 KEY = {i: n + 1 for n, i in enumerate(IDS)}
 META = ["-n", "C13", "-a", "mailto:c13@example.org"]
 
@@ -128,6 +139,8 @@ def build_template(ctx, env, name, ext):
     for oid in (ID_ST, ID_P1):
         run("new", oid)
         run("cp", oid, src(w, "a.txt"), "--", "a.txt")
+    run("new", "-v", "1.0", ID_S10)
+    run("cp", ID_S10, src(w, "a.txt"), "--", "a.txt")
     if os.listdir(st.locks_dir(root_of(w), stg_of(w, ext))):
         raise common.BuildError("template %s: lock left behind while building" % name)
     return t
@@ -226,7 +239,7 @@ COVERAGE = [   # (operation, object id)
     ("new", ID_NEW), ("new256", ID_NEW), ("cp", ID_A), ("cp2", ID_B), ("cpr", ID_A), ("cpi", ID_A), ("cpi_staged", ID_A),
     ("mv", ID_A), ("mvi", ID_A), ("mvi_old", ID_B), ("rm", ID_A), ("rm_staged", ID_B), ("rmr", ID_A),
     ("reset", ID_A), ("reset_rm", ID_B), ("commit", ID_A), ("commit_pretty", ID_B), ("commit", ID_ST),
-    ("upgrade", ID_UP), ("cp", ID_ST), ("cp", ID_UP), ("new", ID_P2), ("commit", ID_P1),
+    ("upgrade", ID_UP), ("upgrade", ID_S10), ("cp", ID_ST), ("cp", ID_UP), ("new", ID_P2), ("commit", ID_P1),
     # objects without a staged version: the operation creates it (inside the lock)
     ("rm", ID_UP), ("cpi", ID_UP), ("mvi_old", ID_UP), ("rmr", ID_UP), ("reset_rm", ID_UP),
     # failing
@@ -236,7 +249,7 @@ COVERAGE = [   # (operation, object id)
     ("f_badargs", ID_A), ("f_commit_badtime", ID_A),
 ]
 FAULT_OPS = [("commit", ID_A), ("commit", ID_ST), ("cp", ID_A), ("cpr", ID_B), ("mvi", ID_A), ("rm_staged", ID_A),
-             ("reset", ID_B), ("upgrade", ID_UP), ("new", ID_NEW), ("cpi_staged", ID_A), ("mv", ID_B)]
+             ("reset", ID_B), ("upgrade", ID_UP), ("new", ID_NEW), ("cpi_staged", ID_A), ("mv", ID_B), ("upgrade", ID_S10)]
 
 
 # --------------------------------------------------------------------------- trace -> events
@@ -245,9 +258,11 @@ def lock_names(w, ext):
     return {st.lock_path(root_of(w), stg_of(w, ext), i): i for i in IDS}
 
 
-def events_of(tr, w, ext, tid=0, extra_keys=None, delay_us=0):
+def events_of(tr, w, ext, tid=0, extra_keys=None, delay_us=0, mode="enter", info=None):
     """abstract the traced calls to model events: list of (tid, kind, key, ts); and notes.
-    ts = time at which the call took effect (entry stamp, plus the injected delay for the delayed call)"""
+    ts = time at which the call took effect (entry stamp, plus the injected delay for a call delayed on entry).
+    info (dict, optional): info["split"] = number of events that took effect before the command was held by
+    the delay injection (mode "enter": the delayed call itself comes after the hold; "exit": before it)"""
     locks = lock_names(w, ext)
     ldir = st.locks_dir(root_of(w), stg_of(w, ext))
     roots = {i: obj_roots(w, ext, i) for i in IDS}
@@ -255,11 +270,20 @@ def events_of(tr, w, ext, tid=0, extra_keys=None, delay_us=0):
     if extra_keys:
         keys.update(extra_keys)
     evs, notes = [], []
+    held_seen = False
     for c in tr.calls:
+        if held_seen == "exit":                 # the call delayed on exit has been abstracted: the hold is here
+            held_seen = True
+            if info is not None:
+                info.setdefault("split", len(evs))
+        if c.injected and not held_seen:
+            held_seen = True if mode == "enter" else "exit"
+            if mode == "enter" and info is not None:
+                info.setdefault("split", len(evs))
         op = st.abstract_op(c)
         if op is None:
             continue
-        if c.injected and delay_us and c.ts is not None:
+        if c.injected and delay_us and mode == "enter" and c.ts is not None:
             c.ts += delay_us / 1e6
         paths = [x for x in op[1:] if isinstance(x, str) and x.startswith("/")]
         if op[0] == "symlink":
@@ -294,7 +318,42 @@ def events_of(tr, w, ext, tid=0, extra_keys=None, delay_us=0):
         hit = [i for i in IDS if any(st.common_under(p, r) for p in paths for r in roots[i])]
         for i in hit:
             evs.append((tid, "KMut", keys[i], c.ts))
+    if info is not None:
+        info.setdefault("split", len(evs))
     return evs, notes
+
+
+def strict_oracle(evs, key, returned):
+    """model-free statement 'one bracket per command' on the abstracted calls of ONE command on the object
+    with lock key `key`: they spell  A M* R  (A = effective O_EXCL creation of the lock file, M = effective
+    mutating call below a root of the object, R = effective removal of the lock file) and nothing else, or the
+    single refused creation F, or nothing at all; a killed command: a prefix of that.  Returns None or a message."""
+    word = "".join({"KAcq": "A", "KMut": "M", "KRel": "R", "KFail": "F"}[e[1]] for e in evs if e[2] == key)
+    na, nr = word.count("A"), word.count("R")
+    if na > 1:
+        return ("the command created the lock file of its object %d times: it released the lock in the middle of the "
+                "operation and took it again (call pattern %s; A = lock created, M = mutating call on the object, "
+                "R = lock removed)" % (na, squeeze(word)))
+    if nr > 1:
+        return "the command removed the lock file of its object %d times (call pattern %s)" % (nr, squeeze(word))
+    if "R" in word and word.index("R") < len(word) - 1:
+        return ("the command went on after it had released the lock of its object: %d further call(s) on the object or its "
+                "lock file follow the removal of the lock file (call pattern %s)" % (len(word) - 1 - word.index("R"), squeeze(word)))
+    if "M" in word and ("A" not in word or word.index("M") < word.index("A")):
+        return "a mutating call on the object precedes the creation of its lock file (call pattern %s)" % squeeze(word)
+    if "F" in word and word != "F":
+        return "the command went on after the creation of its lock file was refused (call pattern %s)" % squeeze(word)
+    if returned and "A" in word and "R" not in word:
+        return "the command returned without removing the lock file it created (call pattern %s)" % squeeze(word)
+    return None
+
+
+def squeeze(word):
+    out = []
+    for ch, grp in itertools.groupby(word):
+        n = len(list(grp))
+        out.append(ch if n == 1 else "%s{%d}" % (ch, n))
+    return " ".join(out) or "<empty>"
 
 
 def coq_events(evs):
@@ -344,14 +403,21 @@ def run_coverage_case(tpl, env, opname, oid, inject=None, w=None):
          "oracle": bracket_oracle(tr, w, tpl.ext, returned), "nmut": sum(1 for e in evs if e[1] == "KMut"),
          "parse_errors": tr.parse_errors[:2], "stderr": tr.stderr[-300:], "points": tr.points,
          "ops": st.fmt_ops(tr.ops, strip=w)[:60], "injected": [repr(c) for c in tr.injected_calls()][:2],
-         "lock_point": None, "unlink_point": None, "timed_out": tr.timed_out}
+         "lock_point": None, "unlink_point": None, "unlink_points": [], "post_points": [], "timed_out": tr.timed_out}
+    r["strict"] = strict_oracle(evs, KEY[oid], returned)
     lock = st.lock_path(root_of(w), stg_of(w, tpl.ext), oid)
     for c in tr.calls:
-        if c.path == lock and c.pid == tr.main_pid:
+        if c.pid != tr.main_pid or c.k is None:
+            continue
+        if r["unlink_point"] is not None:
+            r["post_points"].append(c.point)          # mutating calls that follow the (first) removal of the lock file
+        if c.path == lock:
             if c.name in ("openat", "open") and r["lock_point"] is None:
                 r["lock_point"] = c.point
             if c.name in ("unlink", "unlinkat"):
-                r["unlink_point"] = c.point
+                r["unlink_points"].append(c.point)
+                if r["unlink_point"] is None:
+                    r["unlink_point"] = c.point
     shutil.rmtree(w, ignore_errors=True)
     return r
 
@@ -391,15 +457,16 @@ def serial_reference(tpl, env, seq, cache):
     return cache[key]
 
 
-def run_exclusion_case(tpl, env, a, b, point, phase, kmut_before, namut, trace_b, lib_b=False, delay_us=1500000):
-    """A = (opname, id) held at `point`; B = (opname, id) runs meanwhile.  Returns an observation dict."""
+def run_exclusion_case(tpl, env, a, b, point, phase, kmut_before, namut, trace_b, lib_b=False, delay_us=1500000, mode="enter"):
+    """A = (opname, id) held at `point` (mode "enter": before the call takes effect, "exit": after it);
+    B = (opname, id) runs meanwhile.  Returns an observation dict."""
     w = tpl.copy("ex")
     ext = tpl.ext
     argv_a = cmd(w, ext, *op_args(w, a[0], a[1]))
     argv_b = cmd(w, ext, *op_args(w, b[0], b[1]))
     obs = {"tpl": tpl.name, "a": a, "b": b, "point": list(point), "phase": phase, "k": kmut_before, "na": namut,
-           "achieved": False, "delay_us": delay_us, "lib_b": lib_b}
-    ra = st.start(argv_a, env=env, cwd=w, inject={"when": point, "delay_us": delay_us}, timeout=120)
+           "achieved": False, "delay_us": delay_us, "lib_b": lib_b, "mode": mode}
+    ra = st.start(argv_a, env=env, cwd=w, inject={"when": point, ("delay_us" if mode == "enter" else "delay_exit_us"): delay_us}, timeout=120)
     held = ra.wait_held(stable=0.12, timeout=40)
     t_s1 = time.time()
     s1 = raw_snapshot(w, ext)
@@ -436,8 +503,11 @@ def run_exclusion_case(tpl, env, a, b, point, phase, kmut_before, namut, trace_b
     obs["during_b_delta"] = snap_delta(s1, s2)
     obs["left"] = locks_left(w, ext)
     obs["final"] = norm_snapshot(w, ext)
-    eva, _ = events_of(ta, w, ext, tid=0, delay_us=delay_us)
+    info = {}
+    eva, _ = events_of(ta, w, ext, tid=0, delay_us=delay_us, mode=mode, info=info)
     obs["a_events"] = eva
+    obs["a_split"] = info["split"]
+    obs["a_ops"] = st.fmt_ops(ta.ops, strip=w)[:60]
     acq_a = [e[3] for e in eva if e[1] == "KAcq" and e[2] == KEY[a[1]]]
     obs["a_acq_ts"] = acq_a[0] if acq_a else None
     if trb is not None:
@@ -570,8 +640,8 @@ def run(ctx):
             raise common.BuildError("strace output not understood / timeout: %r" % (r,))
         if r["inject"] and not r["injected"] and not r["killed"]:
             bump("injection_point_not_reached")
-        fn = "trace_balanced" if r["returned"] else "trace_prefix_ok"
-        terms.append(("%s %s" % (fn, coq_events(r["events"])), ("cov", r)))
+        fn = "strict_balanced" if r["returned"] else "strict_prefix_ok"
+        terms.append(("%s [%d] %s" % (fn, KEY[r["id"]], coq_events(r["events"])), ("cov", r)))
 
     # ---------------------------------------------------------------- exclusion half
     pairs_same = [("commit", "cp"), ("cp", "commit"), ("cp", "rm"), ("mvi", "reset"), ("rm_staged", "cpi"),
@@ -585,9 +655,41 @@ def run(ctx):
             rec = run_coverage_case(tpl, env, a[0], a[1])
             recs[(tpl.name, a[0], a[1])] = rec
         inside, before, unlink = sample_points(ctx, rec, npts)
-        cands = [(p, "inside") for p in inside] + ([(unlink, "inside")] if unlink else []) + ([(before, "before")] if before else [])
-        for n, (pt, phase) in enumerate(cands):
-            ex_jobs.append((tpl, a, b, pt, phase, rec, (n % trace_every == 0), lib and phase == "inside" and n == 0))
+        cands = [(p, "inside", "enter") for p in inside] + ([(unlink, "inside", "enter")] if unlink else []) + \
+                ([(before, "before", "enter")] if before else [])
+        cands += release_points(rec, skip_first_enter=True, exits=not quick)
+        for n, (pt, phase, mode) in enumerate(cands):
+            ex_jobs.append((tpl, a, b, pt, phase, rec, (n % trace_every == 0), lib and phase == "inside" and n == 0, mode))
+
+    def release_points(rec, skip_first_enter=False, exits=True):
+        """hold points at and after the release: every removal of the lock file and every mutating call that
+        follows a removal (none on a tree that keeps one bracket per operation), held on entry and on exit"""
+        unl = [tuple(p) for p in rec["unlink_points"]]
+        post = [tuple(p) for p in rec["post_points"] if tuple(p) not in unl]
+        if quick and len(post) > 4:
+            keep = {0, 1, len(post) - 1}
+            while len(keep) < 4:
+                keep.add(rng.randrange(len(post)))
+            post = [post[i] for i in sorted(keep)]
+        out = []
+        for n, p in enumerate(unl):
+            if not (skip_first_enter and n == 0):
+                out.append((p, "release", "enter"))
+            if exits or n > 0 or post:
+                out.append((p, "release", "exit"))
+        for p in post:
+            out += [(p, "after-release", "enter"), (p, "after-release", "exit")]
+        return out
+
+    def add_release_pairs(tpl, a, bs):
+        """A held at / after its release(s), B = each of bs on the same object, always traced"""
+        rec = recs.get((tpl.name, a[0], a[1]))
+        if rec is None:
+            rec = run_coverage_case(tpl, env, a[0], a[1])
+            recs[(tpl.name, a[0], a[1])] = rec
+        for pt, phase, mode in release_points(rec):
+            for b in bs:
+                ex_jobs.append((tpl, a, (b, a[1]), pt, phase, rec, True, False, mode))
 
     for n, (oa, ob) in enumerate(pairs_same if quick else pairs_same + [(b, a) for a, b in pairs_same]):
         tpl = tpls[n % 2]
@@ -601,13 +703,23 @@ def run(ctx):
     add_pair(tpls[0], ("cp", ID_UP), ("rm", ID_UP), 2 if quick else 10 ** 6, 1)        # B would have to create the staged version
     add_pair(tpls[1], ("cpi", ID_UP), ("mvi_old", ID_UP), 2 if quick else 10 ** 6, 1)
     add_pair(tpls[0], ("commit", ID_ST), ("cp", ID_ST), 3 if quick else 10 ** 6, 2)
+    # A held at the removal of its lock file (entry: still locked; exit: released, not yet returned) and at every
+    # mutating call that follows a release, B = each of commit / cp / reset <path> / upgrade on the same object
+    B4 = ["commit", "cp", "reset", "upgrade"]
+    add_release_pairs(tpls[0], ("upgrade", ID_UP), B4)
+    add_release_pairs(tpls[1], ("upgrade", ID_S10), B4)
+    add_release_pairs(tpls[1], ("commit", ID_A), B4)
+    others = [("cp", ID_A), ("mvi", ID_A), ("rm", ID_A), ("reset", ID_A), ("new", ID_NEW), ("mv", ID_B), ("cpi", ID_B),
+              ("rm_staged", ID_B), ("cpr", ID_A), ("commit", ID_ST)]
+    for n, a in enumerate(others):
+        add_release_pairs(tpls[n % 2], a, B4 if not quick else [B4[n % 4]])
 
     def do_ex(j):
-        tpl, a, b, pt, phase, rec, trace_b, lib_b = j
+        tpl, a, b, pt, phase, rec, trace_b, lib_b, mode = j
         na = rec["nmut"]
         o = None
         for attempt, d in enumerate((1500000, 3000000, 6000000)):
-            o = run_exclusion_case(tpl, env, a, b, tuple(pt), phase, None, na, trace_b, lib_b=lib_b, delay_us=d)
+            o = run_exclusion_case(tpl, env, a, b, tuple(pt), phase, None, na, trace_b, lib_b=lib_b, delay_us=d, mode=mode)
             if o["achieved"]:
                 break
         return o
@@ -625,16 +737,30 @@ def run(ctx):
         a, b = tuple(o["a"]), tuple(o["b"])
         same = a[1] == b[1]
         tpl = [t for t in tpls if t.name == o["tpl"]][0]
-        # how many object-touching calls A had made when it was held: A's KMut events older than the window start
-        win0 = o["window"][0][0]
-        k = sum(1 for e in o["a_events"] if e[1] == "KMut" and e[2] == KEY[a[1]] and e[3] is not None and e[3] < win0)
-        na = sum(1 for e in o["a_events"] if e[1] == "KMut" and e[2] == KEY[a[1]])
-        acquired_before_hold = o["a_acq_ts"] is not None and o["a_acq_ts"] < win0
+        # where A was held: its events (calls that took effect) before and after the hold
+        ka = KEY[a[1]]
+        pre = [e for e in o["a_events"][:o["a_split"]] if e[2] == ka]
+        post = [e for e in o["a_events"][o["a_split"]:] if e[2] == ka]
+        k = sum(1 for e in pre if e[1] == "KMut")
+        na = k + sum(1 for e in post if e[1] == "KMut")
+        acq_pre = sum(1 for e in pre if e[1] == "KAcq")
+        rel_pre = sum(1 for e in pre if e[1] == "KRel")
+        more = sum(1 for e in post if e[1] in ("KAcq", "KMut"))
+        acquired_before_hold = acq_pre > 0 or k > 0          # A has begun
+        lock_held = acq_pre > rel_pre                        # the lock file of A's object exists during the hold
+        in_progress = acquired_before_hold and (lock_held or more > 0)     # begun and not finished
+        midway_unlocked = in_progress and not lock_held      # no schedule of the model looks like this
         o["k"], o["na"], o["acquired_before_hold"] = k, na, acquired_before_hold
-        bump("exclusion_%s_%s" % ("same" if same else "other", "inside" if acquired_before_hold else "before"))
+        o["lock_held"], o["in_progress"], o["midway_unlocked"], o["more"] = lock_held, in_progress, midway_unlocked, more
+        where = "inside" if lock_held else ("midway-unlocked" if midway_unlocked else ("after-release" if acquired_before_hold else "before"))
+        o["where"] = where
+        bump("exclusion_%s_%s" % ("same" if same else "other", where))
+        bump("exclusion_hold_%s_%s" % (o["phase"], o["mode"]))
+        if same:
+            bump("exclusion_B_%s_%s" % (b[0], where))
         terms_key = ("ex", o)
         # serial reference: the operations that acquired the lock, in acquire order
-        b_in = not (same and acquired_before_hold and o["b_code"] == 3) and not (o["lib_b"] and o["b_code"] != 0)
+        b_in = not (same and in_progress and o["b_code"] == 3) and not (o["lib_b"] and o["b_code"] != 0)
         if acquired_before_hold:
             order = [a] + ([b] if b_in else [])
             pos_a, pos_b = 0, (1 if b_in else None)
@@ -652,13 +778,16 @@ def run(ctx):
             o["final_delta"] = snap_delta(ref_snap, o["final"])
         outa = o["exp_a"] or 0
         outb = o["exp_b"] or 0
-        hold = "(Some %d)" % min(k, na) if acquired_before_hold else "None"
+        # model schedule: A stopped before its acquire / after k data steps inside / after its release (na + 1)
+        hold = ("(Some %d)" % (min(k, na) if lock_held else na + 1)) if acquired_before_hold else "None"
         nb = 2
-        terms.append(("check_two_proc %d %d %d %d %d %d %s %d %d %s" % (
+        term2 = "check_two_proc %d %d %d %d %d %d %s %d %d %s" % (
             KEY[a[1]], KEY[b[1]], na, nb, 1 if outa else 0, 1 if outb else 0, hold,
-            o["a_code"], o["b_code"], "[" + "; ".join(str(x) for x in obs_order) + "]"), terms_key))
+            o["a_code"], o["b_code"], "[" + "; ".join(str(x) for x in obs_order) + "]")
+        # (A held with its lock released and work still to do: not a state of the model; reported directly)
+        terms.append((term2 if not midway_unlocked else "true", terms_key))
         if "merged" in o:
-            terms.append(("trace_balanced %s" % coq_events(o["merged"]), ("exm", o)))
+            terms.append(("strict_balanced [%d; %d] %s" % (KEY[a[1]], KEY[b[1]], coq_events(o["merged"])), ("exm", o)))
             if o["b_code"] == 3:
                 terms.append(("only_failed_acquire %s" % coq_events(o["b_events"]), ("exb", o)))
 
@@ -706,7 +835,7 @@ def run(ctx):
                       sample={"cmd": "rocfl " + " ".join(op_args("<w>", r["op"], r["id"])), "inject": inj, "rc": r["rc"],
                               "events": [e[:3] for e in r["events"]][:12], "model_accepts": val})
             inp = {"template": r["tpl"], "op": r["op"], "id": r["id"], "args": op_args("<work>", r["op"], r["id"]), "inject": inj}
-            msg = r["oracle"]
+            msg = r["oracle"] or r["strict"]
             if not msg and r["returned"] and r["left"]:
                 unl = r["unlink_point"]
                 msg = "lock file left behind after the command returned: %r" % (r["left"],)
@@ -715,21 +844,27 @@ def run(ctx):
             if msg:
                 viol(msg, {"input": inp, "observed": {"rc": r["rc"], "ops": r["ops"], "left": r["left"], "stderr": r["stderr"]}})
             elif val != "true":
-                common.corr_break(ctx, "Corr.CheckLock %s (trace of the real command rejected by the model's automaton)" % term.split(" ")[0],
+                common.corr_break(ctx, "Corr.CheckLock %s (trace of the real command rejected by the model's strict automaton)" % term.split(" ")[0],
                                   {"input": inp, "observed": {"events": [e[:3] for e in r["events"]], "ops": r["ops"]}})
         elif kind == "ex":
             o = r
             a, b = tuple(o["a"]), tuple(o["b"])
             same = a[1] == b[1]
-            ctx.count(("ex", a, b, tuple(o["point"]), o["tpl"], o["lib_b"]), nontrivial=True,
-                      sample={"A": a, "B": b, "held_at": o["point"], "phase": "inside" if o["acquired_before_hold"] else "before",
+            ctx.count(("ex", a, b, tuple(o["point"]), o["mode"], o["tpl"], o["lib_b"]), nontrivial=True,
+                      sample={"A": a, "B": b, "held_at": o["point"], "held_on": o["mode"], "phase": o["where"],
                               "a_code": o["a_code"], "b_code": o["b_code"], "model_agrees": val})
             inp = {"template": o["tpl"], "A": op_args("<work>", *a), "B": op_args("<work>", *b) if not o["lib_b"] else ["library cp_ext", b[1]],
-                   "hold_A_at": o["point"], "delay_us": o["delay_us"]}
+                   "hold_A_at": o["point"], "hold_on": "entry of the call" if o["mode"] == "enter" else "exit of the call (after its effect)",
+                   "delay_us": o["delay_us"]}
             msg = None
-            if same and o["acquired_before_hold"]:
-                if o["b_code"] != 3:
+            if same and o["in_progress"]:
+                if o["b_code"] != 3 and o["lock_held"]:
                     msg = "B on the same object was not refused with the lock error while A held the lock (B code %s: %s)" % (o["b_code"], o["b_err"])
+                elif o["b_code"] != 3:
+                    msg = ("B on the same object was not refused with the lock error although A was in the middle of its operation: "
+                           "A had made %d mutating call(s) on the object and released its lock, B ran (B code %s: %s), and A went on "
+                           "with %d more call(s) on the object / its lock file (A code %s: %s); the object was unlocked in between"
+                           % (o["k"], o["b_code"], o["b_err"].strip()[-160:], o["more"], o["a_code"], o["a_err"].strip()[-160:]))
                 elif o["during_b_delta"]:
                     msg = "the refused operation changed the repository: %r" % (o["during_b_delta"],)
                 elif o.get("b_effective_ops"):
@@ -739,6 +874,12 @@ def run(ctx):
                     msg = "B was refused although no operation on its object held the lock (%s)" % o["b_err"]
             if not msg and o.get("b_oracle"):
                 msg = "B: " + o["b_oracle"]
+            if not msg:
+                sm = strict_oracle(o["a_events"], KEY[a[1]], o["a_code"] != 4)
+                if not sm and "b_events" in o:
+                    sm = strict_oracle(o["b_events"], KEY[b[1]], True)
+                    sm = sm and "B: " + sm
+                msg = sm and ("A: " + sm if not sm.startswith("B: ") else sm)
             if not msg and o["left"]:
                 msg = "lock file left behind after both commands returned: %r" % (o["left"],)
             if not msg and o["a_code"] == 3:
@@ -749,19 +890,21 @@ def run(ctx):
                         o["order"], o["exp_a"], o["exp_b"], o["a_code"], o["b_code"])
                 elif o["final_delta"]:
                     msg = "final tree differs from the serial execution %r: %r" % (o["order"], o["final_delta"])
+            o["reported"] = bool(msg)
             if msg:
-                viol(msg, {"input": inp, "observed": {k_: o[k_] for k_ in ("a_code", "b_code", "a_err", "b_err", "left", "during_b_delta")}})
+                viol(msg, {"input": inp, "observed": dict({k_: o[k_] for k_ in ("a_code", "b_code", "a_err", "b_err", "left", "during_b_delta")},
+                                                          a_calls=o["a_ops"], a_calls_before_hold=o["a_split"], b_calls=o.get("b_ops"))})
             elif val != "true":
                 common.corr_break(ctx, "Corr.CheckLock check_two_proc (model schedule vs two real processes)", {"input": inp, "term": term,
                                   "observed": {"a_code": o["a_code"], "b_code": o["b_code"]}})
         elif kind in ("exm", "exb"):
-            if val != "true":
+            if val != "true" and not (kind == "exm" and r.get("reported")):
                 o = r
                 inp = {"template": o["tpl"], "A": op_args("<work>", *o["a"]), "B": op_args("<work>", *o["b"]), "hold_A_at": o["point"]}
                 if kind == "exb":
                     viol("the refused operation's trace contains more than the failed lock creation", {"input": inp, "observed": {"b_ops": o.get("b_ops")}})
                 else:
-                    common.corr_break(ctx, "Corr.CheckLock trace_balanced on the merged trace of A and B", {"input": inp, "term": term[:2000]})
+                    common.corr_break(ctx, "Corr.CheckLock strict_balanced on the merged trace of A and B", {"input": inp, "term": term[:2000]})
         elif kind == "race":
             if val != "true":
                 common.corr_break(ctx, "Corr.CheckLock check_race", {"input": {"ops": r["ops"], "id": r["id"]}, "term": term, "observed": r["codes"]})
